@@ -17,6 +17,7 @@ pub fn scenarios() -> Vec<Scenario> {
         scn!(scenario_wrong_length_commitment, 2),
         scn!(scenario_bad_round2_share, 3),
         scn!(scenario_package_set_faults, 2),
+        crate::wrap::scn_dkg(2),
     ]
 }
 
